@@ -69,20 +69,25 @@ R1Cases(z) ==
 \* chains, diamonds, cycles, canonical-vs-retrieval aliases, faults
 RootU == H1(<<"dir", "root.json">>)
 RemU  == H1(<<"dir", "rem.json">>)
-Rem2U(canon) == IF canon THEN URI("http", "h3", TRUE, <<"sub", "rem2.json">>) ELSE H1(<<"dir", "sub", "rem2.json">>)
+\* canon: "none" | "abs" ($id http://h3/c.json) | "rel" ($id ../canon/c.json: the text differs from the canonical URI)
+CanonBase(canon) == IF canon = "abs" THEN URI("http", "h3", TRUE, <<"c.json">>) ELSE IF canon = "rel" THEN H1(<<"canon", "c.json">>) ELSE RemU
+Rem2U(canon) == IF canon = "abs" THEN URI("http", "h3", TRUE, <<"sub", "rem2.json">>)
+                ELSE IF canon = "rel" THEN H1(<<"canon", "sub", "rem2.json">>) ELSE H1(<<"dir", "sub", "rem2.json">>)
 RefTo(path, f) == Ref(RelRef(path), f)
 \* what rem's properties.r refers to
 RemInner == {<<>>, <<RefTo(<<"sub", "rem2.json">>, FragName("a"))>>, <<RefTo(<<"sub", "rem2.json">>, FragNone)>>,
              <<LocalRef(FragName("a"))>>}
 \* what rem2's properties.r refers to (cycle back to rem / to the root / nothing)
-Rem2Kinds == {"none", "remA", "rootT", "remNone"}
+Rem2Kinds == {"none", "remA", "rootT", "remNone", "rootCanon"}
 Rem2Inner(canon, kind) ==
   CASE kind = "none"    -> <<>>
-    [] kind = "remA"    -> <<RefTo(<<"..", IF canon THEN "c.json" ELSE "rem.json">>, FragName("a"))>>
+    [] kind = "remA"    -> <<RefTo(<<"..", IF canon # "none" THEN "c.json" ELSE "rem.json">>, FragName("a"))>>
+    [] kind = "rootCanon" -> <<Ref(H1(<<"dir", "rid.json">>), PDefsT)>>      \* the root by its canonical URI (root $id "rid.json")
     [] kind = "rootT"   -> <<Ref(RootU, PDefsT)>>
-    [] kind = "remNone" -> <<RefTo(<<"..", IF canon THEN "c.json" ELSE "rem.json">>, FragNone)>>
+    [] kind = "remNone" -> <<RefTo(<<"..", IF canon # "none" THEN "c.json" ELSE "rem.json">>, FragNone)>>
 RemDoc(canon, inner) ==
-  (IF canon THEN [id |-> IdOf(URI("http", "h3", TRUE, <<"c.json">>))] ELSE <<>>)
+  (IF canon = "abs" THEN [id |-> IdOf(URI("http", "h3", TRUE, <<"c.json">>))]
+   ELSE IF canon = "rel" THEN [id |-> IdOf(RelRef(<<"..", "canon", "c.json">>))] ELSE <<>>)
   @@ [defs |-> [t |-> Tgt(4)]] @@ (IF inner = <<>> THEN <<>> ELSE [properties |-> [r |-> [ref |-> inner[1]]]])
 Rem2Doc(inner) ==
   [defs |-> [t |-> Tgt(5)]] @@ (IF inner = <<>> THEN <<>> ELSE [properties |-> [r |-> [ref |-> inner[1]]]])
@@ -97,8 +102,9 @@ RootRefs == {<<RefTo(<<"rem.json">>, f)>> : f \in Frags}
                   <<RefTo(<<"rem.json">>, FragPtr(<<SegN("defs", "zz")>>))>>}
 R2Root(refs, emb) ==
   LET props == [r |-> [ref |-> refs[1]]] @@ (IF Len(refs) > 1 THEN [r2 |-> [ref |-> refs[2]]] ELSE <<>>)
-  IN IF emb THEN [defs |-> [t |-> Tgt(0)], properties |-> [e |-> [id |-> IdOf(RelRef(<<"sub", "e.json">>)), properties |-> props]]]
-            ELSE [defs |-> [t |-> Tgt(0)], properties |-> props]
+      rid == [id |-> IdOf(RelRef(<<"rid.json">>))]       \* relative root $id: canonical URI http://h1/dir/rid.json
+  IN rid @@ (IF emb THEN [defs |-> [t |-> Tgt(0)], properties |-> [e |-> [id |-> IdOf(RelRef(<<"sub", "e.json">>)), properties |-> props]]]
+             ELSE [defs |-> [t |-> Tgt(0)], properties |-> props])
 R2Wrap(emb, v) == IF emb THEN Obj([e |-> v]) ELSE v
 R2Insts(emb) ==
   LET vs == {Obj([r |-> Num(Mark[i])]) : i \in 1..6}
@@ -111,7 +117,7 @@ R2Cases(z) ==
                       [uri |-> RemU, s |-> RemDoc(canon, ri)],
                       [uri |-> Rem2U(canon), s |-> Rem2Doc(Rem2Inner(canon, r2i))]>>],
     insts |-> SetToSeq(R2Insts(emb))] :
-      refs \in RootRefs, emb \in (IF K >= 2 THEN BOOLEAN ELSE {FALSE}), canon \in BOOLEAN,
+      refs \in RootRefs, emb \in (IF K >= 2 THEN BOOLEAN ELSE {FALSE}), canon \in {"none", "abs", "rel"},
       ri \in RemInner, r2i \in Rem2Kinds}
 
 \* ------------------------------------------------------------ selection
